@@ -103,10 +103,18 @@ def run(ctx):
         if tag == "q3":
             _auxiliary_evaluation(ctx, results[tag].out_path)
         os.remove(results[tag].out_path)
-    ctx.extra["observations"] = _probe_other_graph_likes()
+    # divergences = differences between the transcribed algorithm and the code that the property does not forbid
+    # (initializer listing); the rest are behaviours the model has too and the statement allows (which exception is
+    # raised, shadowed boundary inputs): reported as observations
+    is_div = lambda c: c.startswith("init-")  # noqa: E731
+    ctx.extra["divergences"] = {c: n for c, n in divs.items() if is_div(c)}
+    obs = _probe_other_graph_likes()
+    obs.update({c: n for c, n in divs.items() if not is_div(c)})
+    ctx.extra["observations"] = obs
+    ctx.extra["observation_samples"] = div_samples
     ctx.extra["per_cfg"] = per_cfg
-    ctx.extra["divergences"] = divs
-    ctx.extra["divergence_samples"] = div_samples
+    for c, n in ctx.extra["divergences"].items():
+        ctx.note(f"divergence {c}: {n} cases, e.g. {json.dumps(div_samples.get(c))[:300]}")
 
     ctx.rule = ("TLC enumerates every instance of the bounded scope (graph forest, inputs among visible values) and every cut "
                 "(all subsets of root values as boundary inputs x non-empty subsets as outputs), checks the theorems of "
